@@ -126,6 +126,7 @@ type Machine struct {
 	RaceQueries int
 	clockReads int
 	onceDone map[*value]bool
+	pools    map[*value][]value
 	wgCount map[*value]int
 
 	// results
